@@ -240,6 +240,25 @@ def read_line(path, lineno):
     return None
 
 
+def save_trace(path, lineno, dest, limit=8 << 20):
+    """Keep the whole recorded trace the failing line belongs to (for analysis; bounded)."""
+    try:
+        target = read_line(path, lineno)
+        if target is None or "tr" not in target or "from" in target:
+            return
+        want = ('{"tr":%d,' % target["tr"]).encode()
+        size = 0
+        with open(path, "rb") as f, open(dest, "wb") as g:
+            for l in f:
+                if l.startswith(want):
+                    g.write(l)
+                    size += len(l)
+                    if size > limit:
+                        break
+    except Exception:
+        pass
+
+
 def read_context(path, lineno, before=40):
     """The failing line and, for multi-line traces, the lines of the same trace leading up to it (bounded)."""
     ctx = []
@@ -326,6 +345,9 @@ class Check:
         if n <= 12:
             if callable(payload):
                 payload = payload()
+            tf = payload.pop("_tracefile", None) if isinstance(payload, dict) else None
+            if tf and n <= 4:
+                save_trace(tf[0], tf[1], path + ".trace.ndjson")
             json.dump({"property": self.prop, "clause": clause, "case": payload}, open(path, "w"), indent=1)
             print("VIOLATION property=%s replay=%s" % (self.prop, path), flush=True)
             log("  clause %s" % clause)
@@ -346,7 +368,8 @@ class Check:
                 self.known_finding(tag, self.findings.open[tag].get("what", ""))
             else:
                 self.violation(clause, lambda lineno=lineno, tag=tag: {"source": what, "trace_line": lineno, "tag": tag,
-                                                                           "context": read_context(tracefile, lineno)})
+                                                                           "context": read_context(tracefile, lineno),
+                                                                           "_tracefile": (tracefile, lineno)})
 
     def finish(self, extra=None):
         cov = self.cov
